@@ -88,6 +88,32 @@ def direct_laws(op, rng, n_sets):
             if not np.allclose(comb, out + 1j * np.asarray(f(V.copy())), rtol=0, atol=1e-8 * np.abs(out).max()):
                 bad.append(("%s:not-linear" % name, dict(N=N, lam=lam, d1=d1, z=z, m=m)))
                 return bad, done
+    # magnifications a hair away from 1 (a grid that is ALMOST the input grid is still another grid), and fields of very small /
+    # very large overall amplitude (linear means homogeneous at every scale; nothing may be rounded away as "negligible")
+    N, d1, lam, z = 8, 0.01, 1e-6, 500.0
+    U = rng.standard_normal((N, N)) + 1j * rng.standard_normal((N, N))
+    p_in = (np.abs(U) ** 2).sum() * d1 ** 2
+    for m in (1 + 4e-6, 1 - 4e-6, 1 + 3e-7, 1 - 1e-4, 1 + 1e-3):
+        for name, f in (("angularSpectrum", lambda W: op.angularSpectrum(W, lam, d1, m * d1, z)),
+                        ("twoStepFresnel", lambda W: op.twoStepFresnel(W, lam, d1, m * d1, z))):
+            out = np.asarray(f(U.copy()))
+            done += 1
+            p_out = (np.abs(out) ** 2).sum() * (m * d1) ** 2
+            if not np.all(np.isfinite(out)) or abs(p_out - p_in) > 2e-8 * p_in:
+                bad.append(("%s:power-not-conserved:magnification-close-to-1" % name, dict(m=m, ratio_minus_1=float(p_out / p_in - 1))))
+                return bad, done
+    for s_ in (1e-30, 1e-18, 3e-15, 1e-12, 1e-6, 1e3, 1e12, 1e25):
+        for name, f, dout in (("angularSpectrum", lambda W: op.angularSpectrum(W, lam, d1, 1.5 * d1, z), 1.5 * d1),
+                              ("twoStepFresnel", lambda W: op.twoStepFresnel(W, lam, d1, 1.5 * d1, z), 1.5 * d1),
+                              ("oneStepFresnel", lambda W: op.oneStepFresnel(W, lam, d1, z), abs(lam * z / (N * d1))),
+                              ("lensAgainst", lambda W: op.lensAgainst(W, lam, d1, z), abs(lam * z / (N * d1)))):
+            ref = np.asarray(f(U.copy()))
+            out = np.asarray(f(s_ * U))
+            done += 1
+            p_out = (np.abs(out) ** 2).sum() * dout ** 2
+            if out.shape != ref.shape or not np.allclose(out / s_, ref, rtol=0, atol=1e-9 * np.abs(ref).max()) or abs(p_out - s_ ** 2 * p_in) > 1e-8 * s_ ** 2 * p_in:
+                bad.append(("%s:not-homogeneous:amplitude-scale" % name, dict(scale=s_, err=float(np.abs(out / s_ - ref).max() / np.abs(ref).max()) if out.shape == ref.shape else None)))
+                return bad, done
     # real-valued and single-precision input fields
     N, d1, lam, z = 8, 0.01, 1e-6, 500.0
     Ur = rng.standard_normal((N, N))
